@@ -15,6 +15,30 @@ mod util;
 
 use vcommon::{Args, Ctx};
 
+/// Set once an unlisted violation has been reported (the watchdog then exits 1, not 2).
+static VIOLATION_SEEN: std::sync::atomic::AtomicBool = std::sync::atomic::AtomicBool::new(false);
+
+/// After a violation the remaining (more expensive) stages are skipped: a broken hook or
+/// scheduler can make an exhaustive simulation endless.
+fn violated(ctx: &Ctx) -> bool {
+    let v = ctx.violations() > 0;
+    if v {
+        VIOLATION_SEEN.store(true, std::sync::atomic::Ordering::SeqCst);
+    }
+    v
+}
+
+/// A hang is never a verdict: after the budget the process exits 2 (inconclusive), or 1 if a
+/// violation had already been printed.
+fn watchdog(prop: String, secs: u64) {
+    std::thread::spawn(move || {
+        std::thread::sleep(std::time::Duration::from_secs(secs));
+        let seen = VIOLATION_SEEN.load(std::sync::atomic::Ordering::SeqCst);
+        println!("INCONCLUSIVE property={prop} watchdog: no result after {secs}s (hang or overload)");
+        std::process::exit(if seen { 1 } else { 2 });
+    });
+}
+
 fn main() {
     let args = Args::parse();
     util::install_panic_hook();
@@ -23,20 +47,27 @@ fn main() {
         c38::child_main(job);
     }
     let mut ctx = Ctx::new(args);
+    watchdog(ctx.prop().to_string(), ctx.tier().pick(50 * 60, 8 * 3600));
     match ctx.prop().to_string().as_str() {
         "C36" => {
             ctx.rule = "hook level: every scenario = hook kind(s) of one tick/observation x layout of <=4 (thorough 5) uniquely numbered items over <=2 keys / 2 merge inputs x split into <=3 instalments x 1-2 scheduling attempts per instalment, resolved through the scheduler's run_hooks (and, for solo hooks, through the bare SimHook API with both force values); ALL decision tapes of a scenario are enumerated depth-first by the harness driver; proptest scenarios (5-9 items, <=3 hooks, 3 keys) with sampled tapes beyond. Non-trivial: some tape of the scenario splits a queue of >=3 items into >=2 releases (snapshots: skips to a newer version with >=2 pending). Distinct: structural hash of the scenario.".into();
             hookchecks::c36_hooks(&mut ctx);
             let progs = progchecks::Progs::default();
-            progchecks::c36_programs(&mut ctx, &progs);
-            progchecks::c36_passthrough_pair(&mut ctx);
+            if !violated(&ctx) {
+                progchecks::c36_programs(&mut ctx, &progs);
+            }
+            if !violated(&ctx) {
+                progchecks::c36_passthrough_pair(&mut ctx);
+            }
             ctx.extra.insert("sim_compile_secs".into(), (*progs.compile_secs.lock().unwrap()).into());
         }
         "C37" => {
             ctx.rule = "hook level: for every enumerated scenario (same space as C36) the set of outcomes (sequence of normalised releases) reached over all decision tapes, and over all inputs of bolero's exhaustive driver, is compared for equality with the outcome set of an independent reference model. Non-trivial: outcome set with >=5 elements.".into();
             hookchecks::c37_hooks(&mut ctx);
             let progs = progchecks::Progs::default();
-            progchecks::c37_programs(&mut ctx, &progs);
+            if !violated(&ctx) {
+                progchecks::c37_programs(&mut ctx, &progs);
+            }
             ctx.extra.insert("sim_compile_secs".into(), (*progs.compile_secs.lock().unwrap()).into());
         }
         "C38" => {
